@@ -745,7 +745,8 @@ func vRunHist(t *testing.T, ops []string) string {
 // ---------------------------------------------------------------------------------------------
 // generators
 
-var vEndpoints = []string{"n1/a", "n1/b", "n2/a", "n1/"}
+// ("n1/A": an endpoint that differs from n1/a only in the case of its demux - a different endpoint)
+var vEndpoints = []string{"n1/a", "n1/b", "n2/a", "n1/", "n1/A"}
 
 // vExhaustive: every sequence of up to `maxK` recipients (each a REST client, a web socket client, a
 // mock agent or a ping agent) registering for the endpoint n1/a — i.e. 0..maxK recipients per endpoint
@@ -755,10 +756,10 @@ func vExhaustive(maxK int, emit func(ops []string)) {
 	kinds := []byte{'r', 'w', 'm', 'p'}
 	var rec func(seq []byte)
 	rec = func(seq []byte) {
-		ops := []string{"R0", "W1", "M2:n1/b+n2/a", "r0.90:n1/b", "w1.91:n2/a", "r0.92:n1/"}
+		ops := []string{"R0", "W1", "M2:n1/b+n2/a", "r0.90:n1/b", "w1.91:n2/a", "r0.92:n1/", "r0.93:n1/A"}
 		nextAgent := 3
 		var clients []int
-		clients = append(clients, 90, 92)
+		clients = append(clients, 90, 92, 93)
 		for i, k := range seq {
 			switch k {
 			case 'r':
@@ -774,7 +775,7 @@ func vExhaustive(maxK int, emit func(ops []string)) {
 				nextAgent++
 			}
 		}
-		ops = append(ops, "d1:n1/a", "d2:n1/b", "d3:n2/a", "d4:n2/b", "d5:n1/", "d6:n1/a")
+		ops = append(ops, "d1:n1/a", "d2:n1/b", "d3:n2/a", "d4:n2/b", "d5:n1/", "d6:n1/a", "d8:n1/A")
 		for _, c := range clients {
 			ops = append(ops, fmt.Sprintf("f0.%d", c))
 		}
